@@ -169,9 +169,13 @@ Definition step_prod (i : nat) (s : st) : option (st * list ev) :=
   | Some p =>
       match pp p with
       | PSet =>
-          if stopped s then Some (set_prod s i (with_pp p (PLoad 1)), [ESrcSet false])
-          else Some (set_prod (set_src s true (registered s)) i
-                       (with_pp p (PLoad (if registered s then 0 else 1))), [ESrcSet true])
+          match pk p with
+          | KProd => None   (* request_stop is the stoppers' entry point only *)
+          | KStopper =>
+              if stopped s then Some (set_prod s i (with_pp p (PLoad 1)), [ESrcSet false])
+              else Some (set_prod (set_src s true (registered s)) i
+                           (with_pp p (PLoad (if registered s then 0 else 1))), [ESrcSet true])
+          end
       | PLoad j =>
           if Nat.ltb j (pn p)
           then Some (set_prod s i (with_pp p (PCas j (head_ptr s))), [ELoad (head_ptr s)])
